@@ -77,6 +77,13 @@ func (x *Exec) callValue(st *State, fr *Frame, fnv Value, args []Value, call *ss
 		}
 	}
 	x.safetyCheck(st, "nil", mkNot(mkEq(fnv.S, "0")), pos)
+	// a value of a named function type: a contract keyed by the type applies
+	if n, ok := fnv.T.(*types.Named); ok {
+		key := qualName(n)
+		if c := x.contractOf(key); c != nil {
+			return x.applyContract(st, fr, c, key, sig, nil, args, pos)
+		}
+	}
 	return x.havocCall(st, fr, "func-value", sig, args, pos)
 }
 
@@ -213,7 +220,7 @@ func deterministicKey(key string) bool {
 
 func scalarKind(k Kind) bool {
 	switch k {
-	case KBool, KInt, KBV8, KStr, KOpaque, KReal:
+	case KBool, KInt, KBV8, KStr, KOpaque, KReal, KArray:
 		return true
 	}
 	return false
@@ -227,7 +234,7 @@ func (x *Exec) pureUF(st *State, key string, sig *types.Signature, args []Value)
 	}
 	var sorts, terms []string
 	for _, a := range args {
-		if !scalarKind(a.K) {
+		if !scalarKind(a.K) || a.S == "" {
 			return nil, false
 		}
 		sorts = append(sorts, x.tc.sortOf(a.T))
